@@ -390,6 +390,38 @@ def focusedseq_focus(ctx, rule):
                 ok = ok and o[0] == "ite" and ((o[1] == focus[0] and (o[2], o[3]) == (OBJ, N.NONE)) if focus[0][1] == "==" else (o[1] == N.mk_not(focus[0]) and (o[2], o[3]) == (OBJ, N.NONE)))
         ctx.ob(rule, fi, ok and seen >= 2, "FocusedSeq.%s: the member named parsebuildfrom is the one in focus (its result is returned%s)" % (meth, "; it alone receives obj" if meth == "_build" else ""), key="FocusedSeq %s focus" % meth)
 
+
+def identical_directions(ctx, rule, classes):
+    """_parse and _build of the listed classes have the same summary (events, guards, exceptions, result) modulo the direction of the sub-call."""
+    def sigs(cls, meth):
+        fi, paths = own_method_paths(ctx, cls, meth)
+        out = set()
+        for p in paths:
+            row = []
+            for e in p.events:
+                s = e.sig()
+                if e.kind == "SUB":
+                    d = dict(s[1])
+                    d.pop("res", None)
+                    d.pop("obj", None)
+                    d["m"] = "X"
+                    s = ("SUB", tuple(sorted(d.items())))
+                if e.kind == "RAISE":
+                    d = dict(s[1])
+                    s = ("RAISE", d.get("cls"), d.get("path"))
+                if e.kind == "RETURN":
+                    continue
+                row.append(s)
+            ret = p.outcome[1] if p.outcome[0] == "return" else (p.outcome[1].get("cls") if p.outcome[0] == "raise" else None)
+            if isinstance(ret, tuple) and ret and ret[0] == "subres":
+                ret = ("subres", "X", ret[2], ret[3])
+            out.add((tuple(row), p.outcome[0], ret))
+        return fi, out
+    for cls in classes:
+        fp, a = sigs(cls, "_parse")
+        fb, b = sigs(cls, "_build")
+        ctx.ob(rule, fb, a == b, "%s._parse and %s._build have the same summary modulo the direction of the sub-call" % (cls, cls), key="%s identical" % cls)
+
 def run(ctx):
     M = ctx.model
     S = summariser(ctx)
@@ -517,34 +549,7 @@ def run(ctx):
         ok = len(sb) == 1 and sb[0]["obj"] == N.mk_ite(N.mk_cmp("is", OBJ, N.NONE), ("eval", N.selfattr("value"), CTX), OBJ) and paths[0].retval == sb[0]["res"]
     ctx.ob("C01.R5", fi, ok, "Default._build builds obj unless it is None, then EVAL(value)", key="Default")
 
-    def sigs(cls, meth):
-        fi, paths = own_method_paths(ctx, cls, meth)
-        out = set()
-        for p in paths:
-            row = []
-            for e in p.events:
-                s = e.sig()
-                if e.kind == "SUB":
-                    d = dict(s[1])
-                    d.pop("res", None)
-                    d.pop("obj", None)
-                    d["m"] = "X"
-                    s = ("SUB", tuple(sorted(d.items())))
-                if e.kind == "RAISE":
-                    d = dict(s[1])
-                    s = ("RAISE", d.get("cls"), d.get("path"))
-                if e.kind == "RETURN":
-                    continue
-                row.append(s)
-            ret = p.outcome[1] if p.outcome[0] == "return" else (p.outcome[1].get("cls") if p.outcome[0] == "raise" else None)
-            if isinstance(ret, tuple) and ret and ret[0] == "subres":
-                ret = ("subres", "X", ret[2], ret[3])
-            out.add((tuple(row), p.outcome[0], ret))
-        return fi, out
-    for cls in ("Computed", "Index", "Tell", "Seek", "Pointer", "Check", "StopIf"):
-        fp, a = sigs(cls, "_parse")
-        fb, b = sigs(cls, "_build")
-        ctx.ob("C01.R5", fb, a == b, "%s._parse and %s._build have the same summary modulo the direction of the sub-call" % (cls, cls), key="%s identical" % cls)
+    identical_directions(ctx, "C01.R5", ("Computed", "Index", "Tell", "Seek", "Pointer", "Check", "StopIf"))
     buildnone_flags(ctx, "C01.R5")
     derived_flag_formulas(ctx, "C01.R5")
     ctx.floor("C01.R5", 10 + 8)
